@@ -898,7 +898,9 @@ type hcfg struct {
 	hist   []string // inject | accept | request | partial
 	racer  string   // none | accept | close | fin | request | blocked
 	stop   string
-	client bool // keep the client executor pool (SupportServerOnly=false, the default)
+	// client executor: "" = SupportServerOnly (none), "pool" = the engine's own client pool (the
+	// default configuration), "user" = a user-supplied Config.ClientExecutor
+	client string
 	p      int
 	noc    bool
 }
@@ -909,8 +911,8 @@ func (c hcfg) name() string {
 		eng = "http/nocache"
 	}
 	s := fmt.Sprintf("%s %s exec=%s io=%s listen=%v hist=%s racer=%s %s P=%d", eng, c.mode, c.exec, c.iomod, c.listen, strings.Join(c.hist, "+"), c.racer, c.stop, c.p)
-	if c.client {
-		s += " clientpool"
+	if c.client != "" {
+		s += " client" + c.client
 	}
 	return s
 }
@@ -936,7 +938,7 @@ func httpBody(c hcfg) func() {
 		mempool.DefaultMemPool = tr
 		vsched.OnCleanup(func() { mempool.DefaultMemPool = saved })
 		handled := 0
-		conf := nbhttp.Config{Name: "c18h", NPoller: 1, ReadBufferSize: 64, BodyAllocator: tr, SupportServerOnly: !c.client,
+		conf := nbhttp.Config{Name: "c18h", NPoller: 1, ReadBufferSize: 64, BodyAllocator: tr, SupportServerOnly: c.client == "",
 			Handler: http.HandlerFunc(func(rw http.ResponseWriter, r *http.Request) {
 				handled++
 				w.tick(10)
@@ -944,6 +946,9 @@ func httpBody(c hcfg) func() {
 				_, _ = rw.Write([]byte("ok"))
 			})}
 		conf.EpollMod, conf.EPOLLONESHOT = coreModeOf(c.mode)
+		if c.client == "user" {
+			conf.ClientExecutor = func(f func()) { vsched.GoNamed("x.client", f) }
+		}
 		switch c.exec {
 		case "inline":
 			conf.ServerExecutor = func(f func()) { f() }
@@ -1182,6 +1187,10 @@ func check(r *vsched.Result) string {
 		if strings.Contains(b.Name, "Engine).Shutdown") {
 			coreStopThread = true
 		}
+		if strings.HasPrefix(b.Name, "x.") {
+			// a thread created by the user-supplied executor is the user's, not the engine's
+			continue
+		}
 		engineLeft = append(engineLeft, fmt.Sprintf("%s(%s)", b.Name, b.Why))
 		engineLeftSig = append(engineLeftSig, fmt.Sprintf("%s(%s)", lineSuffix(b.Name), whyKind))
 	}
@@ -1346,7 +1355,7 @@ func build(tier string) []*vkit.Scenario {
 	type hexec struct {
 		mode   ekit.Mode
 		exec   string
-		client bool
+		client string
 	}
 	httpS := func(es []hexec, cs []hcase, iomod, stop string, p int, noc bool) {
 		for _, e := range es {
@@ -1356,9 +1365,19 @@ func build(tier string) []*vkit.Scenario {
 			}
 		}
 	}
-	hCheap := []hexec{{ekit.LT, "inline", false}, {ekit.LT, "go", false}, {ekit.ET, "go", false}, {ekit.ONESHOT, "inline", false}}
-	hPool := []hexec{{ekit.LT, "pool", true}}
-	hOther := []hexec{{ekit.ET, "inline", false}, {ekit.ONESHOT, "go", false}, {ekit.LT, "go", true}}
+	hCheap := []hexec{{ekit.LT, "inline", ""}, {ekit.LT, "go", ""}, {ekit.ET, "go", ""}, {ekit.ONESHOT, "inline", ""}}
+	hPool := []hexec{{ekit.LT, "pool", "pool"}}
+	hOther := []hexec{{ekit.ET, "inline", ""}, {ekit.ONESHOT, "go", ""}, {ekit.LT, "go", "pool"}}
+	// the executor product {server executor: engine's own pool, user-supplied (goroutine per job,
+	// inline)} x {client executor: engine's own pool, user-supplied, none (SupportServerOnly)}:
+	// every pool the ENGINE created must be stopped by its OnStop hook whoever supplied the other
+	var hProduct []hexec
+	for _, se := range []string{"pool", "go", "inline"} {
+		for _, ce := range []string{"pool", "user", ""} {
+			hProduct = append(hProduct, hexec{ekit.LT, se, ce})
+		}
+	}
+	productCases := []hcase{{nil, "none", false}, {h("inject"), "none", false}, {h("request"), "none", false}}
 	mixedCases := []hcase{{nil, "none", true}, {nil, "accept", true}, {h("accept"), "none", true}}
 	// light(cs, true): the cases whose racer does not multiply the interleavings too much;
 	// light(cs, false): the others (peer traffic / one more accepted connection racing with Stop)
@@ -1411,6 +1430,8 @@ func build(tier string) []*vkit.Scenario {
 		httpS(hCheap[:2], hdoubles, "nb", "stop", 1, false)
 		httpS(hPool, poolQuick, "nb", "stop", 1, false)
 		httpS(hPool, poolQuick[:4], "nb", "shutdown-bg", 1, false)
+		httpS(hProduct, productCases[:2], "nb", "stop", 1, false)
+		httpS(hProduct, productCases[:2], "nb", "shutdown-bg", 1, false)
 		httpS(hCheap[1:2], mixedCases, "mixed", "stop", 0, false)
 		httpS(hCheap[1:2], mixedCases[:2], "mixed", "shutdown-bg", 0, false)
 		httpS(hCheap[:2], hsingles, "nb", "stop", 1, true)
@@ -1451,6 +1472,9 @@ func build(tier string) []*vkit.Scenario {
 	httpS(allH, hdoubles, "nb", "stop", 2, false)
 	httpS(hPool, poolQuick, "nb", "stop", 2, false)
 	httpS(hPool, poolQuick, "nb", "shutdown-bg", 2, false)
+	httpS(hProduct, productCases, "nb", "stop", 2, false)
+	httpS(hProduct, productCases, "nb", "shutdown-bg", 2, false)
+	httpS(hProduct, productCases[:2], "nb", "shutdown-ctx", 1, false)
 	httpS(hPool, hsingles, "nb", "stop", 1, false)
 	httpS(hPool, hsingles, "nb", "shutdown-bg", 1, false)
 	httpS(hCheap[1:2], mixedCases, "mixed", "stop", 1, false)
@@ -1476,7 +1500,7 @@ func main() {
 	defer ekit.CleanupFiles()
 	vkit.Main(&vkit.Spec{
 		Property: "C18", Level: "model_checking",
-		Rule: "one scenario = engine (core nbio.Engine / nbhttp.Engine) x configuration (epoll mode LT/ET/ONESHOT, NPoller 1-2, 0-2 fake listeners, sync read or async read with pool / goroutine-per-task / inline executor; HTTP: pool / inline handler executor, IOModNonBlocking / IOModMixed) x settled history of 0-3 events (accepted connection, AddConn, connection already ended before Stop by a peer reset of a write backlog / peer FIN / user Close, write backlog, queued Sendfile range with dup'ed descriptor, read deadline, pending / timed / connected async dial, UDP listener with a session; HTTP: injected, accepted or transferred connection, handled request, partial request) x one activity racing with the stopping call (listener hands out one more connection, user Close, peer FIN, peer data / request, callback parked on a latch, dial resolving, deadline firing, AddConn / DialAsync / Write by the user, datagram of a new remote) x stopping call (Stop, Shutdown(Background), Shutdown(live cancel ctx)); every interleaving within the preemption bound; non-trivial = the stopping call was started. SECOND PART (scenario name \"blocking-modes/real-sockets/history-enumeration\", a different and weaker kind of claim): bounded-exhaustive enumeration of HISTORIES, free-running schedule - one case = I/O mode (IOModBlocking, IOModMixed with the history in its blocking-first dispatch, IOModMixed with every connection of the history in the poller half, IOModNonBlocking as control) x WebSocket upgrader variant (plain / BlockingModAsyncWrite / BlockingModTrasferConnToPoller) x every event sequence of length <= 3 (thorough: 4) on <= 2 real AF_UNIX socket-pair connections over {open, keep-alive request, HTTP/1.0 request, partial request, its completion, WebSocket handshake, message echo, close handshake, peer close, peer half-close} x ending (Stop, Shutdown with a live 45 s context, all peers close then Stop); each case is executed ONCE on the real code with real goroutines and the real kernel, schedules are not enumerated",
+		Rule: "one scenario = engine (core nbio.Engine / nbhttp.Engine) x configuration (epoll mode LT/ET/ONESHOT, NPoller 1-2, 0-2 fake listeners, sync read or async read with pool / goroutine-per-task / inline executor; HTTP: server executor {engine's own pool, user-supplied goroutine-per-job, user-supplied inline} x client executor {engine's own pool, user-supplied, none (SupportServerOnly)}, IOModNonBlocking / IOModMixed) x settled history of 0-3 events (accepted connection, AddConn, connection already ended before Stop by a peer reset of a write backlog / peer FIN / user Close, write backlog, queued Sendfile range with dup'ed descriptor, read deadline, pending / timed / connected async dial, UDP listener with a session; HTTP: injected, accepted or transferred connection, handled request, partial request) x one activity racing with the stopping call (listener hands out one more connection, user Close, peer FIN, peer data / request, callback parked on a latch, dial resolving, deadline firing, AddConn / DialAsync / Write by the user, datagram of a new remote) x stopping call (Stop, Shutdown(Background), Shutdown(live cancel ctx)); every interleaving within the preemption bound; non-trivial = the stopping call was started. SECOND PART (scenario name \"blocking-modes/real-sockets/history-enumeration\", a different and weaker kind of claim): bounded-exhaustive enumeration of HISTORIES, free-running schedule - one case = I/O mode (IOModBlocking, IOModMixed with the history in its blocking-first dispatch, IOModMixed with every connection of the history in the poller half, IOModNonBlocking as control) x WebSocket upgrader variant (plain / BlockingModAsyncWrite / BlockingModTrasferConnToPoller) x every event sequence of length <= 3 (thorough: 4) on <= 2 real AF_UNIX socket-pair connections over {open, keep-alive request, HTTP/1.0 request, partial request, its completion, WebSocket handshake, message echo, close handshake, peer close, peer half-close} x ending (Stop, Shutdown with a live 45 s context, all peers close then Stop); each case is executed ONCE on the real code with real goroutines and the real kernel, schedules are not enumerated",
 		Assumptions: []string{
 			"a connection that a listener's Accept returned before listener.Close() was called is the engine's to close; the fake listener never hands out a connection after Close (what stays queued is the harness's own)",
 			"'close notification delivered before Stop returns' is judged per connection that got an open notification (OnOpen or a dial callback with nil error), counted when the close callback is entered; applied to the core engine only, as the statement says; a second close notification for the same connection is a violation too (it releases the wait group Stop relies on)",
